@@ -89,6 +89,14 @@ CLAIMS = {
         note="A1, A2, A4; unit nesting bg<=fg<=hh, bg<=wthh, eg<=bg,fg,hh, sn<=ehe from C12/C17 and VALID; aggregates constant per group by the C11 contract",
         ref="7 C15",
     ),
+    "C16": dict(
+        engine=E1,
+        level="proof",
+        technique="contract-based deductive verification: assume-guarantee over the real DAG (candidate facts kept only when z3 proves them from the E1 strongest postcondition of the rule and the kept facts of its parents), closed-form composition where unary facts are too weak, cap lemmas as z3 queries; E1 divisor / infinity obligations for finiteness",
+        text="For every date class >= 2015: every divisor / infinity obligation of every scalar rule of the default-target DAG is discharged (finiteness under A1), each of the 18 default targets is proved non-negative, and the caps named in the property (ALG II, Wohngeld, Kinderzuschlag after the priority checks; Elterngeld maximum plus bonuses; contributions at the assessment ceiling; Grundrente factor caps) are proved. Counter-models are replayed through the API with cut-node values supplied as data.",
+        note="A1 (no NaN/overflow reasoning in floats), A2, A4; VALID; rounding=True; kernel contracts of C11-C13 at the cut points; two assumed datetime contracts; the cap list is hand-chosen from the property statement",
+        ref="7 C16",
+    ),
     "C17": dict(
         engine=E1,
         level="proof",
